@@ -85,20 +85,20 @@ type ShardReport struct {
 }
 
 type Ctx struct {
-	Prop    *Prop
-	Tier    string
-	Seed    uint64
-	Shard   int
-	NShards int
-	Dir     string // scratch directory of this shard (removed by the parent)
-	Known   *Known
-	Rep     *ShardReport
-	Replay  bool
+	Prop      *Prop
+	Tier      string
+	Seed      uint64
+	Shard     int
+	NShards   int
+	Dir       string // scratch directory of this shard (removed by the parent)
+	Known     *Known
+	Rep       *ShardReport
+	Replay    bool
 	curCase   int64
 	caseStart int64
 	journal   *os.File
-	violOut *os.File
-	State   any // per-shard state of the property
+	violOut   *os.File
+	State     any // per-shard state of the property
 }
 
 func (c *Ctx) RNG(idx int64, salt uint64) *RNG {
